@@ -194,6 +194,10 @@ def main():
     artificial = 0
     if not ctx.worker:
         pool = mesh_pool(M, ctx)
+        # vertices shared by MANY elements (more colours than any fixed-width bookkeeping holds): apex valences 70 and 130
+        pool.append((M.bipyramid(70), "high-valence"))
+        if not ctx.quick:
+            pool += [(M.bipyramid(130), "high-valence"), (M.bipyramid(90, closed=False), "high-valence")]
         nvar = 6 if ctx.quick else 24
         for mesh, cls in pool:
             grid = M.to_grid(mesh)
@@ -250,7 +254,11 @@ def main():
         ctx.obligation("colouring walker reached spaces with zero-multiplier (artificial) dofs", partial or artificial > 0, artificial)
         ctx.obligation("colouring walker saw >= 100 colour maps", partial or ncol >= 100, ncol)
     ctx.obligation("launch recorder observed regular launches with >= 2 test elements", partial or rec.max_parallel_elements >= 2, rec.summary())
-    ctx.obligation("numba threading layer is the requested one", numba.threading_layer() == layer, numba.threading_layer())
+    try:
+        used_layer = numba.threading_layer()
+    except ValueError:   # no parallel region was entered (only possible in a filtered run)
+        used_layer = None
+    ctx.obligation("numba threading layer is the requested one", used_layer == layer or (partial and used_layer is None), used_layer)
     ctx.finish()
 
 
